@@ -14,6 +14,35 @@ extern "C" {
     fn __CPROVER_uninterpreted_in_u64(k: u32) -> u64;
     fn __CPROVER_uninterpreted_marker(k: u32) -> u32;
     fn __CPROVER_uninterpreted_fabs(x: f64) -> f64;
+    fn __CPROVER_uninterpreted_h_f1(id: u32, x: f64) -> f64;
+    fn __CPROVER_uninterpreted_h_f2(id: u32, x: f64, y: f64) -> f64;
+}
+
+/// "any function": an uninterpreted f64 -> f64 function number `id` (natively a fixed smooth,
+/// non-polynomial function per id so that replays are meaningful)
+#[inline(never)]
+pub fn hf(id: u32, x: f64) -> f64 {
+    #[cfg(kani)]
+    unsafe {
+        __CPROVER_uninterpreted_h_f1(id, x)
+    }
+    #[cfg(not(kani))]
+    {
+        let k = id as f64 + 1.0;
+        (k * x).sin() + 0.25 * k * x * x - (0.3 * x).exp() / k
+    }
+}
+#[inline(never)]
+pub fn hf2(id: u32, x: f64, y: f64) -> f64 {
+    #[cfg(kani)]
+    unsafe {
+        __CPROVER_uninterpreted_h_f2(id, x, y)
+    }
+    #[cfg(not(kani))]
+    {
+        let k = id as f64 + 1.0;
+        (k * x + y).sin() + 0.25 * x * y - k * y * y
+    }
 }
 
 pub const MARK_END: u32 = 0x0E0D_0E0D;
@@ -135,6 +164,24 @@ pub fn mark_unreach() {
     }
 }
 
+/// Obligations are accumulated and asserted once, after the END marker: a Kani `assert!` is
+/// `assert; assume`, which would make "harness end reachable" mean "all obligations satisfiable".
+#[cfg(kani)]
+static mut VH_OK: bool = true;
+#[cfg(kani)]
+pub fn record(c: bool) {
+    unsafe {
+        VH_OK = VH_OK & c;
+    }
+}
+pub fn finish() {
+    mark_end();
+    #[cfg(kani)]
+    unsafe {
+        assert!(VH_OK);
+    }
+}
+
 pub fn assume(_c: bool, _what: &'static str) {
     #[cfg(kani)]
     kani::assume(_c);
@@ -154,7 +201,7 @@ pub fn fail(what: String) -> ! {
 macro_rules! vassert {
     ($c:expr, $($what:tt)+) => {{
         #[cfg(kani)]
-        { assert!($c); }
+        { $crate::rt::record($c); }
         #[cfg(not(kani))]
         { if !($c) { $crate::rt::fail(format!($($what)+)); } }
     }};
@@ -167,11 +214,14 @@ macro_rules! vclose {
         let a__: f64 = $a;
         let b__: f64 = $b;
         #[cfg(kani)]
-        { assert!(a__ == b__); }
+        { $crate::rt::record(a__ == b__); }
         #[cfg(not(kani))]
         {
             let t__: f64 = $tol;
-            let ok = if a__.is_finite() && b__.is_finite() { (a__ - b__).abs() <= t__ } else { a__ == b__ };
+            if !b__.is_finite() || !t__.is_finite() {
+                std::panic::panic_any($crate::rt::native::AssumeFailed(format!("reference value not finite: {}", format!($($what)+))));
+            }
+            let ok = a__.is_finite() && (a__ - b__).abs() <= t__;
             if !ok { $crate::rt::fail(format!("{}: got {:e} want {:e} tol {:e}", format!($($what)+), a__, b__, t__)); }
         }
     }};
@@ -184,7 +234,7 @@ macro_rules! vle {
         let a__: f64 = $a;
         let b__: f64 = $b;
         #[cfg(kani)]
-        { assert!(a__ <= b__); }
+        { $crate::rt::record(a__ <= b__); }
         #[cfg(not(kani))]
         {
             let t__: f64 = $slack;
@@ -246,7 +296,7 @@ macro_rules! harness {
         #[cfg_attr(kani, kani::stub(f64::abs, $crate::rt::fabs))]
         pub fn $name() {
             $body;
-            $crate::rt::mark_end();
+            $crate::rt::finish();
         }
     };
 }
